@@ -340,8 +340,10 @@ def main(tier):
                     'group': g, 'cases': len(bs), 'example': first['case'],
                     'detail': first['detail'],
                     'why_not_a_violation': (
-                        'argument shape (forged project_id) is not built '
-                        'from tenant input by any caller'
+                        'argument shape (forged project_id / foreign '
+                        'workflow id handed straight to the create '
+                        'primitive) is not built from tenant input by any '
+                        'product caller'
                         if first['fn'] in reach else
                         'function not reached by any route a non-admin '
                         'may call under the default policy')})
